@@ -4,6 +4,7 @@ import (
 	"fmt"
 	"strings"
 
+	"github.com/basecomplextech/baselibrary/bin"
 	"github.com/basecomplextech/baselibrary/buffer"
 	"github.com/basecomplextech/spec"
 	"github.com/basecomplextech/spec/internal/writer"
@@ -30,6 +31,9 @@ type c12op struct {
 	name string
 	// kind drives the one-way reference model (legal-construction tracking)
 	run func(x *c12exec) (err error, hasErr bool, built []byte, isBuild bool)
+	// probe: applied as a LAST operation to every reached state, never extended (keeps the search space, covers
+	// the whole scalar surface of every handle kind in every state)
+	probe bool
 }
 
 type c12exec struct {
@@ -79,7 +83,7 @@ func init() {
 
 	add := func(name string, f func(x *c12exec) (error, bool, []byte, bool)) {
 		c12opIndex[name] = len(c12ops)
-		c12ops = append(c12ops, c12op{name, f})
+		c12ops = append(c12ops, c12op{name: name, run: f})
 	}
 	add("W.Message", func(x *c12exec) (error, bool, []byte, bool) { x.ms = append(x.ms, x.w.Message()); return e0() })
 	add("W.List", func(x *c12exec) (error, bool, []byte, bool) { x.ls = append(x.ls, x.w.List()); return e0() })
@@ -182,6 +186,63 @@ func init() {
 		})
 		add("L"+sfx+".End", lh(func(l *spec.ListWriter) (error, bool, []byte, bool) { return e1(l.End()) }))
 		add("L"+sfx+".Build", lh(func(l *spec.ListWriter) (error, bool, []byte, bool) { return eb(l.Build()) }))
+	}
+	// probes: every scalar method of a root value, of a field of the most recent message handle and of the most
+	// recent list handle
+	type scalarW interface {
+		Bool(bool) error
+		Byte(byte) error
+		Int16(int16) error
+		Int32(int32) error
+		Int64(int64) error
+		Uint16(uint16) error
+		Uint32(uint32) error
+		Uint64(uint64) error
+		Float32(float32) error
+		Float64(float64) error
+		Bin64(bin.Bin64) error
+		Bin128(bin.Bin128) error
+		Bin256(bin.Bin256) error
+		Bytes([]byte) error
+		String(string) error
+	}
+	scalars := []struct {
+		name string
+		f    func(w scalarW) error
+	}{
+		{"Byte", func(w scalarW) error { return w.Byte(7) }}, {"Int16", func(w scalarW) error { return w.Int16(-3) }},
+		{"Int32", func(w scalarW) error { return w.Int32(-70000) }}, {"Int64", func(w scalarW) error { return w.Int64(1 << 40) }},
+		{"Uint16", func(w scalarW) error { return w.Uint16(65535) }}, {"Uint32", func(w scalarW) error { return w.Uint32(1 << 31) }},
+		{"Uint64", func(w scalarW) error { return w.Uint64(1 << 63) }}, {"Float32", func(w scalarW) error { return w.Float32(1.5) }},
+		{"Float64", func(w scalarW) error { return w.Float64(-2.25) }}, {"Bin64", func(w scalarW) error { return w.Bin64(bin.Bin64{1}) }},
+		{"Bin128", func(w scalarW) error { return w.Bin128(bin.Int128(1, 2)) }}, {"Bin256", func(w scalarW) error { return w.Bin256(bin.Bin256{}) }},
+		{"Bytes", func(w scalarW) error { return w.Bytes([]byte{1, 2, 3}) }}, {"String", func(w scalarW) error { return w.String("probe") }},
+		{"Bool", func(w scalarW) error { return w.Bool(true) }},
+	}
+	for _, sc := range scalars {
+		sc := sc
+		addProbe := func(name string, f func(x *c12exec) (error, bool, []byte, bool)) {
+			if _, dup := c12opIndex[name]; dup {
+				return
+			}
+			c12opIndex[name] = len(c12ops)
+			c12ops = append(c12ops, c12op{name: name, run: f, probe: true})
+		}
+		addProbe("W.Value."+sc.name, func(x *c12exec) (error, bool, []byte, bool) { return e1(sc.f(x.w.Value())) })
+		addProbe("M.Field(7)."+sc.name, func(x *c12exec) (error, bool, []byte, bool) {
+			m := x.m(0)
+			if m == nil {
+				return skip()
+			}
+			return e1(sc.f(m.Field(7)))
+		})
+		addProbe("L."+sc.name, func(x *c12exec) (error, bool, []byte, bool) {
+			l := x.l(0)
+			if l == nil {
+				return skip()
+			}
+			return e1(sc.f(*l))
+		})
 	}
 }
 
@@ -343,7 +404,7 @@ func c12(a *vlib.Args) {
 	seen := map[uint64]struct{}{}
 	var frontier []node
 	for i := range c12ops {
-		if a.Mine(int64(i)) {
+		if a.Mine(int64(i)) && !c12ops[i].probe {
 			frontier = append(frontier, node{[]int{i}})
 		}
 	}
@@ -355,6 +416,7 @@ func c12(a *vlib.Args) {
 		return s
 	}
 	first := true
+	nprobes := 0
 	for d := 1; d <= depth && len(frontier) > 0; d++ {
 		var next []node
 		for _, nd := range frontier {
@@ -377,6 +439,10 @@ func c12(a *vlib.Args) {
 					r.Violate(o.violation, o.desc, c12replay{opNames(ops), a.Tier})
 					continue // do not extend violating programs
 				}
+				if c12ops[ops[len(ops)-1]].probe {
+					nprobes++
+					continue // probes are terminal
+				}
 				h := vlib.Hash(o.key)
 				if _, ok := seen[h]; ok {
 					continue
@@ -398,7 +464,8 @@ func c12(a *vlib.Args) {
 	r.Distinct = r.States
 	r.Bounds["max_program_length"] = depth
 	r.Bounds["op_alphabet"] = len(c12ops)
-	r.Rule = fmt.Sprintf("explicit-state BFS over ALL call sequences of length <=%d over a %d-op alphabet on one explicit writer and its handles (most recent and previous message/list handle, copies of handles, Value/Field/element scalars, nested Message/List, Any, Copy, End/Build on any handle, Len/HasField/Err, Reset, Free, an unrelated pooled writer used in between); successor = replay on a fresh writer + 1 op; states merged iff the complete writer dump + handle slots are equal; oracle on every transition: no panic, sticky error until Reset, Err() consistent, successful Build parses completely (library parser and independent decoder), Reset state == fresh state", depth, len(c12ops))
+	r.Bounds["terminal_probe_transitions"] = nprobes
+	r.Rule = fmt.Sprintf("explicit-state BFS over ALL call sequences of length <=%d over a %d-op alphabet on one explicit writer and its handles (most recent and previous message/list handle, copies of handles, Value/Field/element scalars, nested Message/List, Any, Copy, End/Build on any handle, Len/HasField/Err, Reset, Free, an unrelated pooled writer used in between); successor = replay on a fresh writer + 1 op; states merged iff the complete writer dump + handle slots are equal; additionally every scalar method (15 kinds) of a root value, of a field of the most recent message handle and of the most recent list handle is applied as a terminal probe to every expanded state; oracle on every transition: no panic, sticky error until Reset, Err() consistent, successful Build parses completely (library parser and independent decoder), Reset state == fresh state", depth, len(c12ops))
 	_ = tree.Bool
 	r.Write(a)
 }
